@@ -377,6 +377,16 @@ def rule_poll(ctx):
     from . import c13
     ix = ctx.ix
     c13.rule_dummy(ctx)
+    # the predicate itself: is_running() is a load of the shared flag, stop() a store of false into it
+    ir = ctx.body(C.IS_RUNNING)
+    r = ctx.sym(ir).local(0)
+    ok = r[0] == "call" and r[1] == C.ATOMIC_LOAD and any(isinstance(x, tuple) and x[0] == "field" and x[-1] == "running" for x in walk(r))
+    ctx.check(ok, "is_running:loads-shared-flag", "is_running() returns self.running.load(..)", ir.where(0), bad_what="is_running() returns `%s`, not the shared flag" % expr_str(r)[:100])
+    sb = ctx.body("search::Search::stop")
+    st = [t for _b, t in sb.calls() if callee_is(t, C.ATOMIC_STORE)]
+    ssym = ctx.sym(sb)
+    ok = len(st) == 1 and const_int(st[0]["args"][1]) == 0 and any(isinstance(x, tuple) and x[0] == "field" and x[-1] == "running" for x in walk(ssym.operand(st[0]["args"][0])))
+    ctx.check(ok, "stop:clears-shared-flag", "Search::stop() stores false into self.running", sb.where(0), bad_what="Search::stop() does not store false into self.running")
     abortable = C.abortable_functions(ix)
     for key in (C.ALPHA_BETA_START, C.ITER_DEEP):
         b = ctx.body(key)
